@@ -238,17 +238,59 @@ theorem diff2Mid_length (l : List α) : (diff2Mid l).length = l.length - 2 := by
 theorem voidFn_length (f : Str) (n : Nat) (a c : List α) (ha : a.length = n) (hn : n ≠ 0)
     (h : voidFn f n a = .ok c) : c.length = n := by
   unfold voidFn at h
-  repeat' split at h
-  · cases h; simp [integ, integAux_length, ha]; omega
-  · cases h; simp [diff, ha]; omega
-  · cases h
+  by_cases h0 : f = ['I']
+  · rw [if_pos h0] at h
+    cases h; simp [integ, integAux_length, ha]; omega
+  rw [if_neg h0] at h
+  by_cases h1 : f = ['D']
+  · rw [if_pos h1] at h
+    cases h; simp [diff, ha]; omega
+  rw [if_neg h1] at h
+  by_cases h2 : f = ['D', '2']
+  · rw [if_pos h2] at h
+    cases h
     unfold diff2
     split
     · simp; omega
     · simp [diff2Mid_length, ha]; omega
-  · cases h; simp [ha]
-  · rw [mapM'_length _ _ _ h, ha]
-  · cases h
+  rw [if_neg h2] at h
+  by_cases h3 : f = ['A', 'B', 'S']
+  · rw [if_pos h3] at h
+    cases h; simp [ha]
+  rw [if_neg h3] at h
+  by_cases h4 : f = ['S', 'Q', 'R', 'T']
+  · rw [if_pos h4] at h
+    rw [mapM'_length _ _ _ h, ha]
+  rw [if_neg h4] at h
+  by_cases h5 : f = logName
+  · rw [if_pos h5] at h
+    rw [mapM'_length _ _ _ h, ha]
+  rw [if_neg h5] at h
+  by_cases h6 : f = ['D', 'I', 'O', 'D', 'E']
+  · rw [if_pos h6] at h
+    cases h; simp [ha]
+  rw [if_neg h6] at h
+  by_cases h7 : f = ['S', 'I', 'G', 'N']
+  · rw [if_pos h7] at h
+    cases h; simp [ha]
+  rw [if_neg h7] at h
+  by_cases h8 : f = ['E', 'X', 'P']
+  · rw [if_pos h8] at h
+    rw [mapM'_length _ _ _ h, ha]
+  rw [if_neg h8] at h
+  by_cases h9 : f = ['C', 'O', 'S']
+  · rw [if_pos h9] at h
+    rw [mapM'_length _ _ _ h, ha]
+  rw [if_neg h9] at h
+  by_cases h10 : f = ['S', 'I', 'N']
+  · rw [if_pos h10] at h
+    rw [mapM'_length _ _ _ h, ha]
+  rw [if_neg h10] at h
+  by_cases h11 : f = ['T', 'A', 'N']
+  · rw [if_pos h11] at h
+    rw [mapM'_length _ _ _ h, ha]
+  rw [if_neg h11] at h
+  cases h
 
 theorem vsOp_length (o : Char) (a c : List α) (s : α) (h : vsOp o a s = .ok c) : c.length = a.length := by
   unfold vsOp at h
